@@ -69,6 +69,16 @@ type vgNeg struct {
 	X string   `@"x"`
 }
 
+type vgNegOpt struct {
+	A string   `@A`
+	R []string `( @~"x" )?`
+}
+
+type vgNegTail struct {
+	A string   `@A`
+	R []string `@~"x"*`
+}
+
 type vgLookahead struct {
 	A string `( (?= A B ) @A`
 	B string `  @B`
@@ -165,6 +175,36 @@ type vgLeakNested struct {
 	All []string    `@( A | B | "!" )*`
 }
 
+// a sub-production that can fail part-way inside an abandoned attempt
+type vgPartInner struct {
+	V string `@B`
+	W string `@C`
+}
+
+type vgLeakPartial struct {
+	A string       `( @A`
+	S *vgPartInner `  @@ )`
+	B string       `| @A`
+	R []string     `  @( B | "?" )*`
+}
+
+type vgLeakPartialOpt struct {
+	N string       `( @A`
+	S *vgPartInner `  @@ )?`
+	R []string     `@( A | B | C )*`
+}
+
+// a mandatory repetition with a multi-token body after a prefix, with a later alternative
+type vgPlusPrefix struct {
+	Names []string `"l" ( @A "=" )+ "e"`
+	Name  string   `| "l" @A "e"`
+}
+
+type vgPlusOpt struct {
+	K []string `( "l" ( @A @B )+ )?`
+	R []string `@( "l" | A | B )*`
+}
+
 // --- token captures and elision (C01 / C10)
 
 type vgTokens struct {
@@ -180,6 +220,12 @@ type vgEmptyTok struct {
 type vgElided struct {
 	A []string `@A*`
 	W []string `@Ws*`
+	B string   `@B?`
+}
+
+// a grammar that names the elided type as a whole alternative
+type vgNamedAlt struct {
+	X []string `( @Ws | @A )*`
 	B string   `@B?`
 }
 
@@ -199,6 +245,22 @@ type vgPos struct {
 	Tokens []lexer.Token
 	A      string        `@A?`
 	In     []*vgPosInner `@@*`
+}
+
+// nodes whose last token is consumed by a negation (Next) rather than a literal/reference (FastForward)
+type vgPosNegInner struct {
+	Pos    lexer.Position
+	EndPos lexer.Position
+	Tokens []lexer.Token
+	W      string `@~"x"`
+}
+
+type vgPosNeg struct {
+	Pos    lexer.Position
+	EndPos lexer.Position
+	Tokens []lexer.Token
+	In     []*vgPosNegInner `@@*`
+	X      string           `@"x"?`
 }
 
 type vgPosBase struct {
@@ -256,6 +318,9 @@ func VH_C02_Lookahead()  { vhC01[vgLookahead](vhNoElide) }
 func VH_C02_Neg()        { vhC01[vgNeg](vhNoElide) }
 func VH_C02_Union()      { vhC01[vgUnion](vhUnionCfg) }
 
+func VH_C02_LeakPartial()    { vhC01[vgLeakPartial](vhNoElide) }
+func VH_C02_LeakPartialOpt() { vhC01[vgLeakPartialOpt](vhNoElide) }
+
 func VH_C02_Canary() { VH_C01_Canary() }
 
 func VH_C06_Seq()      { vhC06[vgSeq](vhNoElide) }
@@ -269,6 +334,10 @@ func VH_C06_EmptyTok() { vhC06[vgEmptyTok](vhNoElide) }
 func VH_C06_Tokens()   { vhC06[vgTokens](vhElideWs) }
 func VH_C06_Leak()     { vhC06[vgLeak](vhNoElide) }
 
+func VH_C06_NamedAlt()  { vhC06[vgNamedAlt](vhElideWs) }
+func VH_C06_Elided()    { vhC06[vgElided](vhElideWs) }
+func VH_C06_Lookahead() { vhC06[vgLookahead](vhElideWs) }
+
 func VH_C06_Canary() { VH_C01_Canary() }
 
 func VH_C10_Seq()    { vhC10[vgSeq](vhElideWs) }
@@ -280,11 +349,18 @@ func VH_C10_Sub()    { vhC10[vgSub](vhElideWsCm) }
 func VH_C10_Tokens() { vhC10[vgTokens](vhElideWs) }
 func VH_C10_Named()  { vhC01[vgElided](vhElideWs) } // a grammar that names the elided type
 
+func VH_C10_NamedAlt() { vhC01[vgNamedAlt](vhElideWs) }
+
+func VH_C10_NegOpt()  { vhC10[vgNegOpt](vhElideWs) }
+func VH_C10_NegTail() { vhC10[vgNegTail](vhElideWsCm) }
+
 func VH_C10_Canary() { VH_C01_Canary() }
 
 func VH_C11_Pos()      { vhC11[vgPos](vhElideWs) }
 func VH_C11_PosPlain() { vhC11[vgPos](vhNoElide) }
 func VH_C11_Embedded() { vhC11[vgPosEmbedded](vhElideWs) }
+
+func VH_C11_PosNeg() { vhC11[vgPosNeg](vhElideWs) }
 
 func VH_C11_Canary() { VH_C01_Canary() }
 
@@ -298,7 +374,16 @@ func VH_C13_LeakStar() { vhC13[vgLeakStar](vhNoElide) }
 func VH_C13_Union()    { vhC13[vgUnion](vhUnionCfg) }
 func VH_C13_Rec()      { vhC13[vgRec](vhNoElide) }
 
+func VH_C13_PlusPrefix()  { vhC13[vgPlusPrefix](vhNoElide) }
+func VH_C13_LeakPartial() { vhC13[vgLeakPartial](vhNoElide) }
+
 func VH_C13_Canary() { VH_C01_Canary() }
+
+func VH_C01_NegOpt()     { vhC01[vgNegOpt](vhElideWs) }
+func VH_C01_NegTail()    { vhC01[vgNegTail](vhElideWs) }
+func VH_C01_NamedAlt()   { vhC01[vgNamedAlt](vhElideWs) }
+func VH_C01_PlusPrefix() { vhC01[vgPlusPrefix](vhNoElide) }
+func VH_C01_PlusOpt()    { vhC01[vgPlusOpt](vhNoElide) }
 
 func VH_C01_Canary() {
 	toks := vhStream()
